@@ -171,7 +171,8 @@ def layout(tokens, rng, style):
     """Join token texts. style 0: single spaces; 1: random whitespace/comments."""
     if style == 0:
         return " ".join(tokens)
-    seps = [" ", "  ", "\n", " \n ", " /* c */ ", " // c\n", "\r\n", " /* a\n b */ "]
+    seps = [" ", "  ", "\n", " \n ", " /* c */ ", " // c\n", "\r\n", " /* a\n b */ ", "\t", " /*/ + 1 */ ", " /**/ ", " /***/ ",
+            " /* * / */ ", " // /* \n", " /* // */ "]
     tight = set("()[],")
     out = []
     for i, t in enumerate(tokens):
